@@ -19,12 +19,12 @@ open YashModel YashModel.Redir YashModel.Proto
 def fileName (i : Nat) : String :=
   match i with
   | 0 => "in" | 1 => "out" | 2 => "err" | 3 => "a" | 4 => "b" | 5 => "m" | 6 => "n" | 7 => "d"
-  | 8 => "e" | 9 => "p" | 10 => "s" | 11 => "t" | _ => "tmp"
+  | 8 => "e" | 9 => "p" | 10 => "s" | 11 => "t" | 12 => "q" | _ => "tmp"
 
 def pathOf (s : String) : Option Nat :=
   match s with
   | "a" => some 3 | "b" => some 4 | "m" => some 5 | "n" => some 6 | "d" => some 7 | "e" => some 8
-  | "t" => some 11
+  | "t" => some 11 | "qs" => some 12
   | _ => none
 
 def fileOpOf (s : String) : Option FileOp :=
